@@ -233,6 +233,45 @@ fn exec_op(bars: &BTreeMap<i64, ProgressBar>, mp: &Option<MultiProgress>, mine: 
     let _ = bars;
 }
 
+/// Operations of the final-state (linearizability) programs: the api driver's operations with their arguments, executed on shared
+/// handles from several threads. A `suspend` closure parks once (a scheduling point of its own) before it writes its lines.
+fn exec_lin(s2: &Arc<Sched>, spy: &Spy, mp: &Option<MultiProgress>, mine: &BTreeMap<i64, Vec<ProgressBar>>, op: &Value) {
+    use crate::tok;
+    let b = op.get("b").and_then(|x| x.as_i64()).unwrap_or(1);
+    let name = op["op"].as_str().unwrap_or("");
+    let n = op.get("n").and_then(|x| x.as_u64()).unwrap_or(0);
+    let m = || tok::cells_to_string(op.get("m").unwrap_or(&Value::Null));
+    let pb = || mine.get(&b).and_then(|v| v.first()).cloned().unwrap();
+    let closure = |text: String| {
+        s2.park(Pending::Step(Event { op: Op::Mark, label: "closure", obj: 0, before: true, arg: 0 }));
+        spy.set_user(true);
+        for l in text.split('\n') { let _ = indicatif::TermLike::write_line(spy, l); }
+        spy.set_user(false);
+    };
+    match name {
+        "tick" => pb().tick(),
+        "inc" => pb().inc(n),
+        "set_position" => pb().set_position(n),
+        "set_length" => pb().set_length(n),
+        "set_message" => pb().set_message(m()),
+        "set_prefix" => pb().set_prefix(m()),
+        "set_tab_width" => pb().set_tab_width(n as usize),
+        "set_style" => pb().set_style(crate::api::style(op["tpl"].as_str().unwrap_or("M"))),
+        "reset" => pb().reset(),
+        "force_draw" => pb().force_draw(),
+        "finish" => pb().finish(),
+        "finish_with_message" => pb().finish_with_message(m()),
+        "finish_and_clear" => pb().finish_and_clear(),
+        "abandon" => pb().abandon(),
+        "abandon_with_message" => pb().abandon_with_message(m()),
+        "println" => pb().println(m()),
+        "suspend" => { let t = m(); pb().suspend(|| closure(t)) }
+        "mp_println" => { let _ = mp.as_ref().unwrap().println(m()); }
+        "mp_suspend" => { let t = m(); mp.as_ref().unwrap().suspend(|| closure(t)) }
+        _ => {}
+    }
+}
+
 /// Run one program in this process (call from a forked child). Returns the result record fields.
 pub fn run_program(prog: &Value, out: &mut dyn Write) {
     let h = prog["h"].clone();
@@ -249,14 +288,28 @@ pub fn run_program(prog: &Value, out: &mut dyn Write) {
     // a frozen virtual clock: every Instant::now() of the library returns the same instant, so a rate limited target has its burst and nothing more
     if prog["setup"]["frozen_clock"].as_bool().unwrap_or(false) { crate::clock::enable(); }
     // ---- setup (not scheduled: the observer is installed afterwards, except that tickers must be registered) ----
-    let spy = Spy::new(40, 10);
     let setup = &prog["setup"];
+    let lin = prog["lin"].as_bool().unwrap_or(false);
     let multi = setup["multi"].as_bool().unwrap_or(false);
-    let nb = setup["bars"].as_i64().unwrap_or(1);
-    let mp = if multi { Some(MultiProgress::with_draw_target(if setup["hz"].as_u64().unwrap_or(0) > 0 { ProgressDrawTarget::term_like_with_hz(Box::new(spy.clone()), setup["hz"].as_u64().unwrap() as u8) }
+    let mut nb = setup["bars"].as_i64().unwrap_or(1);
+    // final-state programs: the bars are created by the api driver's own creation operations (`news`), on its spy terminal
+    let mut world = if lin {
+        let mut cfg = json!({"w": setup["w"].as_u64().unwrap_or(40), "h": setup["h"].as_u64().unwrap_or(10)});
+        if multi { cfg["mp"] = json!({"target": "spy", "hz": 0, "align": "top"}); }
+        let mut w = crate::api::World::new(&cfg);
+        for op in setup["news"].as_array().cloned().unwrap_or_default() { let _ = crate::api::exec(&mut w, &op); }
+        nb = w.bars.len() as i64;
+        Some(w)
+    } else { None };
+    let spy = match &world { Some(w) => w.spy.clone(), None => Spy::new(40, 10) };
+    let mp = if let Some(w) = &world { w.mp.clone() } else if multi { Some(MultiProgress::with_draw_target(if setup["hz"].as_u64().unwrap_or(0) > 0 { ProgressDrawTarget::term_like_with_hz(Box::new(spy.clone()), setup["hz"].as_u64().unwrap() as u8) }
                                                                else { ProgressDrawTarget::term_like(Box::new(spy.clone())) })) } else { None };
     let mut bars: BTreeMap<i64, ProgressBar> = BTreeMap::new();
-    for b in 1..=nb {
+    if let Some(w) = world.as_mut() {
+        for (b, v) in std::mem::take(&mut w.bars) { bars.insert(b, v[0].clone()); }
+        w.mp = None;
+    }
+    for b in 1..=(if lin { 0 } else { nb }) {
         let pb = if multi { mp.as_ref().unwrap().add(ProgressBar::with_draw_target(Some(10), ProgressDrawTarget::hidden())) }
                  else if setup["hidden"].as_bool().unwrap_or(false) { ProgressBar::with_draw_target(Some(1000), ProgressDrawTarget::hidden()) }
                  else if setup["hz"].as_u64().unwrap_or(0) > 0 { ProgressBar::with_draw_target(Some(10), ProgressDrawTarget::term_like_with_hz(Box::new(spy.clone()), setup["hz"].as_u64().unwrap() as u8)) }
@@ -282,6 +335,7 @@ pub fn run_program(prog: &Value, out: &mut dyn Write) {
         let s2 = sched.clone();
         let barsc = bars.clone();
         let tk = if tid == 0 { tickers.clone() } else { vec![] };
+        let spyc = spy.clone();
         {
             let mut core = sched.core.lock().unwrap();
             core.threads.insert(tid, Th { state: TState::Running, pending: Pending::None, grant: None, is_ticker: false });
@@ -298,7 +352,7 @@ pub fn run_program(prog: &Value, out: &mut dyn Write) {
                 let name = op["op"].as_str().unwrap_or("").to_string();
                 { let mut core = s2.core.lock().unwrap(); core.calls.insert(tid, name.clone()); let b = op.get("b").and_then(|x| x.as_i64()).unwrap_or(1);
                   core.log.push(json!({"t": tid, "k": "CallBegin", "o": name, "id": b, "arg": 0, "call": name})); }
-                let r = std::panic::catch_unwind(std::panic::AssertUnwindSafe(|| exec_op(&barsc, &mpc, &mut mine, op)));
+                let r = std::panic::catch_unwind(std::panic::AssertUnwindSafe(|| if lin { exec_lin(&s2, &spyc, &mpc, &mine, op) } else { exec_op(&barsc, &mpc, &mut mine, op) }));
                 { let mut core = s2.core.lock().unwrap(); let b = op.get("b").and_then(|x| x.as_i64()).unwrap_or(1);
                   core.log.push(json!({"t": tid, "k": if r.is_ok() { "CallEnd" } else { "CallPanic" }, "o": name, "id": b, "arg": 0, "call": name})); core.calls.insert(tid, String::new()); }
             }
@@ -313,7 +367,8 @@ pub fn run_program(prog: &Value, out: &mut dyn Write) {
         }));
     }
     let probe = bars.get(&1).map(|p| p.downgrade());
-    let keep = if prog["keep"].as_bool().unwrap_or(false) { Some(bars.clone()) } else { None };
+    let keep = if lin || prog["keep"].as_bool().unwrap_or(false) { Some(bars.clone()) } else { None };
+    let keep_mp = if lin { mp.clone() } else { None };
     drop(bars);
     drop(mp);
 
@@ -389,6 +444,38 @@ pub fn run_program(prog: &Value, out: &mut dyn Write) {
     rec.insert("pos0".into(), json!(prog["setup"]["pos0"].as_i64().unwrap_or(0)));
     // spinner frames drawn so far (template "{spinner}{msg}{pos}", tick strings "0".."9") and ticker ticks
     let (calls, _) = spy.take();
+    if lin {
+        // everything the terminal received, in order, and the getters of every bar after all threads have finished
+        let mut gets: Vec<Value> = vec![];
+        if let Some(k) = keep.as_ref() {
+            for (_, p) in k.iter() {
+                let g = std::panic::catch_unwind(std::panic::AssertUnwindSafe(|| {
+                    let len = p.length();
+                    json!({"msg": crate::tok::cells_json(&p.message()), "prefix": crate::tok::cells_json(&p.prefix()), "fin": p.is_finished(),
+                           "pos_s": crate::api::small(p.position()), "haslen": len.is_some(), "len_s": crate::api::small(len.unwrap_or(0)), "poisoned": false})
+                }));
+                gets.push(g.unwrap_or_else(|_| json!({"msg": [], "prefix": [], "fin": false, "pos_s": -2, "haslen": false, "len_s": -2, "poisoned": true})));
+            }
+        }
+        rec.insert("lin".into(), json!(true));
+        rec.insert("calls".into(), calls.clone());
+        rec.insert("gets".into(), json!(gets));
+        rec.insert("cfg".into(), json!({"w": setup["w"].as_u64().unwrap_or(40), "h": setup["h"].as_u64().unwrap_or(10), "multi": multi}));
+        rec.insert("news".into(), setup["news"].clone());
+        rec.insert("threads".into(), prog["threads"].clone());
+        rec.insert("callpanics".into(), json!(core.log.iter().filter(|s| s["k"] == "CallPanic").count()));
+        // how many times the running thread changed while another thread was inside a call (the interleaving was real)
+        let mut open: BTreeSet<i64> = BTreeSet::new(); let mut switches = 0; let mut last: i64 = -1;
+        for st in core.log.iter() {
+            let t = st["t"].as_i64().unwrap_or(-1);
+            if st["k"] == "CallBegin" { open.insert(t); }
+            if t != last && last >= 0 && open.contains(&last) && t < 50 { switches += 1; }
+            if st["k"] == "CallEnd" || st["k"] == "CallPanic" { open.remove(&t); }
+            if t < 50 { last = t; }
+        }
+        rec.insert("switches".into(), json!(switches));
+    }
+    let _ = &keep_mp;
     let mut spinners: Vec<i64> = vec![];
     let cs = calls.as_array().cloned().unwrap_or_default();
     for (j, c) in cs.iter().enumerate() {
